@@ -150,8 +150,7 @@ where
         self.progress_and_get_begin_idx(n).and_then(|begin_idx| {
             // SAFETY: no other thread has the valid condition to iterate, they are waiting
             let iter = unsafe { self.mut_iter() };
-            let end_idx = begin_idx + n;
-            let buffer = (begin_idx..end_idx)
+            let buffer = (0..n)
                 .map(|_| iter.next())
                 .take_while(|x| x.is_some())
                 .map(|x| x.expect("is_some is checked"))
